@@ -279,7 +279,10 @@ func (r *result) adjustAnnotations(annotations map[string]string, plugin string)
 	for k := range del {
 		r.owners.clearAnnotation(id, k)
 		delete(create.Container.Annotations, k)
-		delete(r.reply.adjust.Annotations, k)
+		// a collected key with a marker is an earlier removal, not a setting of k
+		if _, marker := IsMarkedForRemoval(k); !marker {
+			delete(r.reply.adjust.Annotations, k)
+		}
 		r.reply.adjust.Annotations[MarkForRemoval(k)] = ""
 	}
 
@@ -309,7 +312,9 @@ func (r *result) adjustMounts(mounts []*Mount, plugin string) error {
 	// next remove marked mounts from collected adjustments
 	cleared := []*Mount{}
 	for _, m := range r.reply.adjust.Mounts {
-		if _, removed := del[m.Destination]; removed {
+		// collected removals of earlier plugins are kept, they are not settings
+		_, marker := m.IsMarkedForRemoval()
+		if _, removed := del[m.Destination]; removed && !marker {
 			r.owners.clearMount(id, m.Destination)
 			continue
 		}
@@ -374,7 +379,9 @@ func (r *result) adjustDevices(devices []*LinuxDevice, plugin string) error {
 	// next remove marked devices from collected adjustments
 	cleared := []*LinuxDevice{}
 	for _, d := range r.reply.adjust.Linux.Devices {
-		if _, removed := del[d.Path]; removed {
+		// collected removals of earlier plugins are kept, they are not settings
+		_, marker := d.IsMarkedForRemoval()
+		if _, removed := del[d.Path]; removed && !marker {
 			r.owners.clearDevice(id, d.Path)
 			continue
 		}
@@ -471,7 +478,9 @@ func (r *result) adjustEnv(env []*KeyValue, plugin string) error {
 	// next remove marked environment variables from collected adjustments
 	cleared := []*KeyValue{}
 	for _, e := range r.reply.adjust.Env {
-		if _, removed := del[e.Key]; removed {
+		// collected removals of earlier plugins are kept, they are not settings
+		_, marker := e.IsMarkedForRemoval()
+		if _, removed := del[e.Key]; removed && !marker {
 			r.owners.clearEnv(id, e.Key)
 			continue
 		}
